@@ -46,6 +46,10 @@ func (r *Rng) Bytes(n int) []byte {
 func (r *Rng) Pick(xs []uint64) uint64 { return xs[r.Intn(len(xs))] }
 func (r *Rng) Fork(tag uint64) *Rng    { return NewRng(r.U64() ^ tag*0xD6E8FEB86659FD93) }
 
+// Side derives an independent stream WITHOUT consuming from r: decisions added to a generator later draw from a side
+// stream so that the histories the main stream produces stay what they were.
+func (r *Rng) Side(tag uint64) *Rng { return NewRng(r.s ^ (tag+1)*0xA24BAED4963EE407) }
+
 // ---------- Coq term printing ----------
 func cB(b []byte) string { return `(hx "` + hex.EncodeToString(b) + `")` }
 func cN(u uint64) string { return fmt.Sprintf("%d", u) }
